@@ -1386,6 +1386,73 @@ class Sym:
                     return done + [(s1, ("ctor", OK, (unit,)) if is_try else unit) for s1 in live]
                 finally:
                     self.applying -= 1
+        if (trait_callee or callee) in ("core::iter::traits::iterator::Iterator::try_fold", "core::iter::traits::iterator::Iterator::fold") and len(args) == 3 \
+                and self.callable_here(args[2]) and self.applying <= 6:
+            # `IT.try_fold(init, |acc, x| ..)`: a loop with one symbolic iteration whose accumulator is `init` itself (an accumulator
+            # that is updated in place and handed back keeps its identity; one that is replaced is unknown after the loop)
+            is_try = (trait_callee or callee).endswith("try_fold")
+            it, init, f = args
+            maps = []
+            while it[0] == "call" and it[1].endswith("Iterator::map") and len(it[2]) == 2 and self.callable_here(it[2][1]):
+                maps.insert(0, it[2][1])
+                it = it[2][0]
+            NEXT_ = "core::iter::traits::iterator::Iterator::next"
+            lsite = self.site(n, st) + "#fold"
+            fake = {"k": "mcall", "callee": NEXT_, "sp": n.get("sp"), "pv": n.get("pv"), "targs": []}
+            self.drop_creation(f, st)
+            for m in maps:
+                self.drop_creation(m, st)
+            st.trace = st.trace + (("enter", lsite, ()),)
+            st.loops += 1
+            st.loop_depth += 1
+            out = []
+            self.applying += 1
+            try:
+                if it[0] == "call" and it[1] == "core::iter::sources::from_fn::from_fn" and len(it[2]) == 1 and self.callable_here(it[2][0]):
+                    draws = self.call_value(it[2][0], [], st, n)       # from_fn(g).next() is g()
+                else:
+                    nx = ("call", NEXT_, (it,), lsite)
+                    if self.is_effect(NEXT_, [it], fake, st):
+                        self.add_effect(st, "call", NEXT_, [it], fake, nx)
+                    draws = [(st, nx)]
+                for s0, nx in draws:
+                    if s0.done is not None:
+                        out.append((s0, None))
+                        continue
+                    for s1, some in self.test_variant(nx, SOME, s0):
+                        if not some:
+                            s1.trace = s1.trace + (("break", lsite, ()),)
+                            s1.loop_depth -= 1
+                            out.append((s1, ("ctor", OK, (init,)) if is_try else init))
+                            continue
+                        vals = [(s1, self.proj(nx, SOME, 0))]
+                        for m in maps:
+                            vals = [(s3, t) for s2, v in vals if s2.done is None for s3, t in self.call_value(m, [v], s2, n)] + [(s2, None) for s2, v in vals if s2.done is not None]
+                        for s2, v in vals:
+                            if s2.done is not None:
+                                out.append((s2, None))
+                                continue
+                            for s3, t in self.call_value(f, [init, v], s2, n):
+                                if s3.done is not None:
+                                    out.append((s3, None))
+                                    continue
+                                if not is_try:
+                                    s3.loop_depth -= 1
+                                    s3.trace = s3.trace + (("iter", lsite, ()),)
+                                    out.append((s3, init if t == init else self.fresh("folded")))
+                                    continue
+                                for s4, ok in self.test_variant(t, OK, s3):
+                                    s4.loop_depth -= 1
+                                    if ok:
+                                        s4.trace = s4.trace + (("iter", lsite, ()),)
+                                        v2 = self.proj(t, OK, 0)
+                                        out.append((s4, ("ctor", OK, (init if v2 == init else self.fresh("folded"),))))
+                                    else:
+                                        s4.trace = s4.trace + (("abort", lsite, ()),)
+                                        out.append((s4, ("ctor", ERR, (self.proj(t, ERR, 0),))))
+            finally:
+                self.applying -= 1
+            return out
         if (trait_callee or callee) == "core::iter::traits::iterator::Iterator::try_for_each" and len(args) == 2 and self.callable_here(args[1]) and self.applying <= 6:
             # over a collection that is not a literal: the loop `for x in IT { f(x)? }`, one symbolic iteration
             it = args[0]
